@@ -112,11 +112,17 @@ def schedule_features(t):
     return sorted(f)
 
 
+class NoRecord(Exception):
+    pass
+
+
 def record_graphs(cfg, seed, histories, jit_step=True):
     """Run the threaded runtime and return (ExperimentRecord-derived stacked base.Graph, episodes, harness)."""
     h = arun.AsyncHarness(cfg, seed=seed, jit_step=jit_step)
     eps, _ = arun.run_history(h, [c for hist in histories for c in hist])
     eps = [e for e in eps if "record_raw" in e]
+    if not eps:
+        raise NoRecord("no episode produced a record (a connection consumed no message: get_record() raises, outside the properties)")
     exp = base.ExperimentRecord(episodes=[e["record_raw"] for e in eps])
     return exp.to_graph(), eps, h
 
@@ -165,27 +171,43 @@ class CompiledRunner:
         return self._fns[name]
 
     def exec_history(self, gs, history):
+        """Gym-style driving: the step state returned by reset()/step() is what an override is computed from."""
         G = self.G
         ss = None
-        for c in history:
+        self.ss_mismatch = []
+
+        def check_ss(call, gs_, ss_):
+            # the returned step state must be the supervisor's step state of the returned graph state
+            a = jax.tree_util.tree_leaves(ss_)
+            b = jax.tree_util.tree_leaves(gs_.step_state[self.sup.name])
+            same = len(a) == len(b) and all(onp.array_equal(onp.asarray(x), onp.asarray(y)) for x, y in zip(a, b))
+            if not same:
+                self.ss_mismatch.append(call)
+
+        for ci, c in enumerate(history):
             if c == "run":
                 gs = self._fn("run", G.run)(gs)
+                ss = None
             elif c == "reset":
                 gs, ss = self._fn("reset", G.reset)(gs)
+                check_ss(f"{ci}:reset", gs, ss)
             elif c == "step":
                 gs, ss = self._fn("step", lambda g: G.step(g))(gs)
+                check_ss(f"{ci}:step", gs, ss)
             elif c == "stepo":
                 sup = self.sup
                 was = sup.do_log
                 sup.do_log = False
                 try:
-                    new_ss, out = sup.step(gs.step_state[sup.name])
+                    new_ss, out = sup.step(ss if ss is not None else gs.step_state[sup.name])
                 finally:
                     sup.do_log = was
                 gs, ss = self._fn("stepo", lambda g, s, o: G.step(g, s, o))(gs, new_ss, out)
+                check_ss(f"{ci}:stepo", gs, ss)
             elif c.startswith("rollout:"):
                 n = int(c.split(":")[1])
                 gs = self._fn(c, lambda g: G.rollout(g, max_steps=n))(gs)
+                ss = None
             else:
                 raise ValueError(c)
         jax.block_until_ready(gs)
